@@ -94,9 +94,9 @@ package output
 //@   loop 2
 //@     invariant [nonnil] forall j int :: 0 <= j && j < len(errs) ==> errs[j] != nil
 //@     invariant [a @a] len(errs) == 0 ==> (forall j int :: 0 <= j && j < $i1 ==> namesIn(params[j].DependsOn, dom(existing)))
-//@                                    && (forall m int :: 0 <= m && m < $i ==> p.DependsOn[m] in dom(existing))
+//@                                    && (forall m int :: 0 <= m && m < $i ==> params[$i1].DependsOn[m] in dom(existing))
 //@     invariant [b @b] (forall j int :: 0 <= j && j < $i1 ==> namesIn(params[j].DependsOn, dom(existing)))
-//@                    && (forall m int :: 0 <= m && m < $i ==> p.DependsOn[m] in dom(existing)) ==> len(errs) == 0
+//@                    && (forall m int :: 0 <= m && m < $i ==> params[$i1].DependsOn[m] in dom(existing)) ==> len(errs) == 0
 
 //@ func validateParamsExistsInServices
 //@   property C06 C16
@@ -112,17 +112,17 @@ package output
 //@   loop 2
 //@     invariant [nonnil] forall j int :: 0 <= j && j < len(errs) ==> errs[j] != nil
 //@     invariant [a @a] len(errs) == 0 ==> (forall j int :: 0 <= j && j < $i1 ==> svcParamsIn(services[j], dom(existing)))
-//@                                    && (forall q int :: 0 <= q && q < $i ==> namesIn(s.AllArgs()[q].DependsOnParams, dom(existing)))
+//@                                    && (forall q int :: 0 <= q && q < $i ==> namesIn(services[$i1].AllArgs()[q].DependsOnParams, dom(existing)))
 //@     invariant [b @b] (forall j int :: 0 <= j && j < $i1 ==> svcParamsIn(services[j], dom(existing)))
-//@                    && (forall q int :: 0 <= q && q < $i ==> namesIn(s.AllArgs()[q].DependsOnParams, dom(existing))) ==> len(errs) == 0
+//@                    && (forall q int :: 0 <= q && q < $i ==> namesIn(services[$i1].AllArgs()[q].DependsOnParams, dom(existing))) ==> len(errs) == 0
 //@   loop 3
 //@     invariant [nonnil] forall j int :: 0 <= j && j < len(errs) ==> errs[j] != nil
 //@     invariant [a @a] len(errs) == 0 ==> (forall j int :: 0 <= j && j < $i1 ==> svcParamsIn(services[j], dom(existing)))
-//@                                    && (forall q int :: 0 <= q && q < $i2 ==> namesIn(s.AllArgs()[q].DependsOnParams, dom(existing)))
-//@                                    && (forall m int :: 0 <= m && m < $i ==> a.DependsOnParams[m] in dom(existing))
+//@                                    && (forall q int :: 0 <= q && q < $i2 ==> namesIn(services[$i1].AllArgs()[q].DependsOnParams, dom(existing)))
+//@                                    && (forall m int :: 0 <= m && m < $i ==> services[$i1].AllArgs()[$i2].DependsOnParams[m] in dom(existing))
 //@     invariant [b @b] (forall j int :: 0 <= j && j < $i1 ==> svcParamsIn(services[j], dom(existing)))
-//@                    && (forall q int :: 0 <= q && q < $i2 ==> namesIn(s.AllArgs()[q].DependsOnParams, dom(existing)))
-//@                    && (forall m int :: 0 <= m && m < $i ==> a.DependsOnParams[m] in dom(existing)) ==> len(errs) == 0
+//@                    && (forall q int :: 0 <= q && q < $i2 ==> namesIn(services[$i1].AllArgs()[q].DependsOnParams, dom(existing)))
+//@                    && (forall m int :: 0 <= m && m < $i ==> services[$i1].AllArgs()[$i2].DependsOnParams[m] in dom(existing)) ==> len(errs) == 0
 
 // C06, parameters: accepted iff every %param% referenced from a parameter, a service (arguments, calls,
 // fields) or a decorator names a declared parameter.
@@ -155,17 +155,17 @@ package output
 //@   loop 2
 //@     invariant [nonnil] forall j int :: 0 <= j && j < len(errs) ==> errs[j] != nil
 //@     invariant [a @a] len(errs) == 0 ==> (forall j int :: 0 <= j && j < $i1 ==> svcServicesIn(services[j], dom(existing)))
-//@                                    && (forall q int :: 0 <= q && q < $i ==> namesIn(s.AllArgs()[q].DependsOnServices, dom(existing)))
+//@                                    && (forall q int :: 0 <= q && q < $i ==> namesIn(services[$i1].AllArgs()[q].DependsOnServices, dom(existing)))
 //@     invariant [b @b] (forall j int :: 0 <= j && j < $i1 ==> svcServicesIn(services[j], dom(existing)))
-//@                    && (forall q int :: 0 <= q && q < $i ==> namesIn(s.AllArgs()[q].DependsOnServices, dom(existing))) ==> len(errs) == 0
+//@                    && (forall q int :: 0 <= q && q < $i ==> namesIn(services[$i1].AllArgs()[q].DependsOnServices, dom(existing))) ==> len(errs) == 0
 //@   loop 3
 //@     invariant [nonnil] forall j int :: 0 <= j && j < len(errs) ==> errs[j] != nil
 //@     invariant [a @a] len(errs) == 0 ==> (forall j int :: 0 <= j && j < $i1 ==> svcServicesIn(services[j], dom(existing)))
-//@                                    && (forall q int :: 0 <= q && q < $i2 ==> namesIn(s.AllArgs()[q].DependsOnServices, dom(existing)))
-//@                                    && (forall m int :: 0 <= m && m < $i ==> a.DependsOnServices[m] in dom(existing))
+//@                                    && (forall q int :: 0 <= q && q < $i2 ==> namesIn(services[$i1].AllArgs()[q].DependsOnServices, dom(existing)))
+//@                                    && (forall m int :: 0 <= m && m < $i ==> services[$i1].AllArgs()[$i2].DependsOnServices[m] in dom(existing))
 //@     invariant [b @b] (forall j int :: 0 <= j && j < $i1 ==> svcServicesIn(services[j], dom(existing)))
-//@                    && (forall q int :: 0 <= q && q < $i2 ==> namesIn(s.AllArgs()[q].DependsOnServices, dom(existing)))
-//@                    && (forall m int :: 0 <= m && m < $i ==> a.DependsOnServices[m] in dom(existing)) ==> len(errs) == 0
+//@                    && (forall q int :: 0 <= q && q < $i2 ==> namesIn(services[$i1].AllArgs()[q].DependsOnServices, dom(existing)))
+//@                    && (forall m int :: 0 <= m && m < $i ==> services[$i1].AllArgs()[$i2].DependsOnServices[m] in dom(existing)) ==> len(errs) == 0
 
 //@ func validateServicesExistsInDecorators
 //@   property C06 C16
@@ -181,17 +181,17 @@ package output
 //@   loop 2
 //@     invariant [nonnil] forall j int :: 0 <= j && j < len(errs) ==> errs[j] != nil
 //@     invariant [a @a] len(errs) == 0 ==> (forall j int :: 0 <= j && j < $i1 ==> decServicesIn(decorators[j], dom(existing)))
-//@                                    && (forall q int :: 0 <= q && q < $i ==> namesIn(d.Args[q].DependsOnServices, dom(existing)))
+//@                                    && (forall q int :: 0 <= q && q < $i ==> namesIn(decorators[$i1].Args[q].DependsOnServices, dom(existing)))
 //@     invariant [b @b] (forall j int :: 0 <= j && j < $i1 ==> decServicesIn(decorators[j], dom(existing)))
-//@                    && (forall q int :: 0 <= q && q < $i ==> namesIn(d.Args[q].DependsOnServices, dom(existing))) ==> len(errs) == 0
+//@                    && (forall q int :: 0 <= q && q < $i ==> namesIn(decorators[$i1].Args[q].DependsOnServices, dom(existing))) ==> len(errs) == 0
 //@   loop 3
 //@     invariant [nonnil] forall j int :: 0 <= j && j < len(errs) ==> errs[j] != nil
 //@     invariant [a @a] len(errs) == 0 ==> (forall j int :: 0 <= j && j < $i1 ==> decServicesIn(decorators[j], dom(existing)))
-//@                                    && (forall q int :: 0 <= q && q < $i2 ==> namesIn(d.Args[q].DependsOnServices, dom(existing)))
-//@                                    && (forall m int :: 0 <= m && m < $i ==> a.DependsOnServices[m] in dom(existing))
+//@                                    && (forall q int :: 0 <= q && q < $i2 ==> namesIn(decorators[$i1].Args[q].DependsOnServices, dom(existing)))
+//@                                    && (forall m int :: 0 <= m && m < $i ==> decorators[$i1].Args[$i2].DependsOnServices[m] in dom(existing))
 //@     invariant [b @b] (forall j int :: 0 <= j && j < $i1 ==> decServicesIn(decorators[j], dom(existing)))
-//@                    && (forall q int :: 0 <= q && q < $i2 ==> namesIn(d.Args[q].DependsOnServices, dom(existing)))
-//@                    && (forall m int :: 0 <= m && m < $i ==> a.DependsOnServices[m] in dom(existing)) ==> len(errs) == 0
+//@                    && (forall q int :: 0 <= q && q < $i2 ==> namesIn(decorators[$i1].Args[q].DependsOnServices, dom(existing)))
+//@                    && (forall m int :: 0 <= m && m < $i ==> decorators[$i1].Args[$i2].DependsOnServices[m] in dom(existing)) ==> len(errs) == 0
 
 // C06, services: accepted iff every @service referenced from a service or a decorator names a declared service.
 //@ func ValidateServicesExist
@@ -221,17 +221,17 @@ package output
 //@   loop 2
 //@     invariant [nonnil] forall j int :: 0 <= j && j < len(errs) ==> errs[j] != nil
 //@     invariant [a @a] len(errs) == 0 ==> (forall j int :: 0 <= j && j < $i1 ==> decParamsIn(decorators[j], dom(existing)))
-//@                                    && (forall q int :: 0 <= q && q < $i ==> namesIn(d.Args[q].DependsOnParams, dom(existing)))
+//@                                    && (forall q int :: 0 <= q && q < $i ==> namesIn(decorators[$i1].Args[q].DependsOnParams, dom(existing)))
 //@     invariant [b @b] (forall j int :: 0 <= j && j < $i1 ==> decParamsIn(decorators[j], dom(existing)))
-//@                    && (forall q int :: 0 <= q && q < $i ==> namesIn(d.Args[q].DependsOnParams, dom(existing))) ==> len(errs) == 0
+//@                    && (forall q int :: 0 <= q && q < $i ==> namesIn(decorators[$i1].Args[q].DependsOnParams, dom(existing))) ==> len(errs) == 0
 //@   loop 3
 //@     invariant [nonnil] forall j int :: 0 <= j && j < len(errs) ==> errs[j] != nil
 //@     invariant [a @a] len(errs) == 0 ==> (forall j int :: 0 <= j && j < $i1 ==> decParamsIn(decorators[j], dom(existing)))
-//@                                    && (forall q int :: 0 <= q && q < $i2 ==> namesIn(d.Args[q].DependsOnParams, dom(existing)))
-//@                                    && (forall m int :: 0 <= m && m < $i ==> a.DependsOnParams[m] in dom(existing))
+//@                                    && (forall q int :: 0 <= q && q < $i2 ==> namesIn(decorators[$i1].Args[q].DependsOnParams, dom(existing)))
+//@                                    && (forall m int :: 0 <= m && m < $i ==> decorators[$i1].Args[$i2].DependsOnParams[m] in dom(existing))
 //@     invariant [b @b] (forall j int :: 0 <= j && j < $i1 ==> decParamsIn(decorators[j], dom(existing)))
-//@                    && (forall q int :: 0 <= q && q < $i2 ==> namesIn(d.Args[q].DependsOnParams, dom(existing)))
-//@                    && (forall m int :: 0 <= m && m < $i ==> a.DependsOnParams[m] in dom(existing)) ==> len(errs) == 0
+//@                    && (forall q int :: 0 <= q && q < $i2 ==> namesIn(decorators[$i1].Args[q].DependsOnParams, dom(existing)))
+//@                    && (forall m int :: 0 <= m && m < $i ==> decorators[$i1].Args[$i2].DependsOnParams[m] in dom(existing)) ==> len(errs) == 0
 
 // ---- C07 / C05: the dependency graph handed to the library has exactly the edges of the dependency relation.
 // (Node, edges, reach, acyclic: assumed model of the library graph, /verif/contracts/assumed/graph.spec.)
@@ -292,25 +292,25 @@ package output
 //@     invariant [c @complete] forall a Node, b Node :: depRel(o, a, b, $i, 0, 0) ==> edge(edges, a, b)
 //@     invariant [s @sound] forall a Node, b Node :: edge(edges, a, b) ==> depRel(o, a, b, $i, 0, 0)
 //@   loop 2
-//@     invariant [len] len(tags) == len(s.Tags)
-//@     invariant [done] forall m int :: 0 <= m && m < $i ==> tags[m] == s.Tags[m].Name
+//@     invariant [len] len(tags) == len(o.Services[$i1].Tags)
+//@     invariant [done] forall m int :: 0 <= m && m < $i ==> tags[m] == o.Services[$i1].Tags[m].Name
 //@   loop 3
-//@     invariant [svc] elems(dependantServices) == svcRefS(s, $i)
-//@     invariant [tag] elems(dependantTags) == svcRefT(s, $i)
-//@     invariant [prm] elems(dependantParams) == svcRefP(s, $i)
+//@     invariant [svc] elems(dependantServices) == svcRefS(o.Services[$i1], $i)
+//@     invariant [tag] elems(dependantTags) == svcRefT(o.Services[$i1], $i)
+//@     invariant [prm] elems(dependantParams) == svcRefP(o.Services[$i1], $i)
 //@   loop 4
 //@     invariant [c @complete] forall a Node, b Node :: depRel(o, a, b, len(o.Services), $i, 0) ==> edge(edges, a, b)
 //@     invariant [s @sound] forall a Node, b Node :: edge(edges, a, b) ==> depRel(o, a, b, len(o.Services), $i, 0)
 //@   loop 5
-//@     invariant [svc] elems(dependantServices) == decRefS(d, $i)
-//@     invariant [tag] elems(dependantTags) == decRefT(d, $i)
-//@     invariant [prm] elems(dependantParams) == decRefP(d, $i)
+//@     invariant [svc] elems(dependantServices) == decRefS(o.Decorators[$i4], $i)
+//@     invariant [tag] elems(dependantTags) == decRefT(o.Decorators[$i4], $i)
+//@     invariant [prm] elems(dependantParams) == decRefP(o.Decorators[$i4], $i)
 //@   loop 6
 //@     invariant [c @complete] forall a Node, b Node :: depRel(o, a, b, len(o.Services), len(o.Decorators), $i) ==> edge(edges, a, b)
 //@     invariant [s @sound] forall a Node, b Node :: edge(edges, a, b) ==> depRel(o, a, b, len(o.Services), len(o.Decorators), $i)
 //@   loop 7
-//@     invariant [c @complete] forall a Node, b Node :: (depRel(o, a, b, len(o.Services), len(o.Decorators), $i6) || paramEdge(p, a, b, $i)) ==> edge(edges, a, b)
-//@     invariant [s @sound] forall a Node, b Node :: edge(edges, a, b) ==> (depRel(o, a, b, len(o.Services), len(o.Decorators), $i6) || paramEdge(p, a, b, $i))
+//@     invariant [c @complete] forall a Node, b Node :: (depRel(o, a, b, len(o.Services), len(o.Decorators), $i6) || paramEdge(o.Params[$i6], a, b, $i)) ==> edge(edges, a, b)
+//@     invariant [s @sound] forall a Node, b Node :: edge(edges, a, b) ==> (depRel(o, a, b, len(o.Services), len(o.Decorators), $i6) || paramEdge(o.Params[$i6], a, b, $i))
 
 // the library graph as seen through the interface BuildDependencyGraph returns (A11)
 //@ interface dependencyGraph.Deps(serviceID string) []graph.Dependency
